@@ -1,10 +1,13 @@
 import UtilModel.Core.Driver
 import UtilModel.Routine.Model
+import UtilModel.Routine.Monitors
 /-! Development driver for this component only:
 `lake env lean --run UtilModel/Routine/TestDriver.lean routine < hist` -/
 open UtilModel
 
 def main (args : List String) : IO UInt32 :=
   driverMain [
-    mkEntry "routine" Routine.model Routine.Obs.parse []
+    mkEntry "routine" Routine.model Routine.Obs.parse
+      [MonEntry.ofMonitor "C04x" Routine.monC04x, MonEntry.ofMonitor "C04" Routine.monC04,
+       MonEntry.ofMonitor "C05" Routine.monC05, MonEntry.ofMonitor "C14" Routine.monC14] (cap := 4000)
   ] args
